@@ -23,6 +23,16 @@ def low_mask(l):
     return mk_op("-", mk_op("<<", ("int", 1), l), ("int", 1))
 
 
+def _same_masked(a, b):
+    """equal up to the equivalent spellings of a low mask and the order of the operands of `&`"""
+    ca, cb = canon_masks(a), canon_masks(b)
+    if ca == cb:
+        return True
+    def ops(t):
+        return sorted(map(repr, (t[2], t[3]))) if t[0] == "op" and t[1] == "&" else None
+    return ops(ca) is not None and ops(ca) == ops(cb)
+
+
 @rule("R03.2", props=["C03"], floor=4, title="Elias-Fano writers and readers agree on the split (low = v & (2^l - 1) at i, high bit at (v >> l) + i)")
 def r03_2(ctx, rr):
     F = ctx.F()
@@ -44,7 +54,7 @@ def r03_2(ctx, rr):
         raise AnchorMissing("push_unchecked: expected one write to low_bits and one to high_bits, found %d/%d" % (len(lows), len(highs)))
     rr.instances += 1
     want_low = mk_op("&", val, low_mask(l))
-    rr.check(lows[0][2][0] == cnt and lows[0][2][1] == want_low, "push_unchecked:low", "push_unchecked must store `value & ((1 << l) - 1)` at position count; found position %s, value %s" % (tshow(lows[0][2][0]), tshow(lows[0][2][1])), F.loc(lows[0][3]))
+    rr.check(lows[0][2][0] == cnt and _same_masked(lows[0][2][1], want_low), "push_unchecked:low", "push_unchecked must store `value & ((1 << l) - 1)` at position count; found position %s, value %s" % (tshow(lows[0][2][0]), tshow(lows[0][2][1])), F.loc(lows[0][3]))
     rr.instances += 1
     want_high = mk_op("+", mk_op(">>", val, l), cnt)
     rr.check(highs[0][2][0] == want_high and highs[0][2][1] == ("bool", True), "push_unchecked:high", "push_unchecked must set the high bit at `(value >> l) + count`; found %s" % tshow(highs[0][2][0]), F.loc(highs[0][3]))
